@@ -12,3 +12,30 @@ import lifecheck
 
 for _p in lifecheck.PLANS:
     CHECKS[_p] = lifecheck.run
+import primcheck
+
+CHECKS["C15"] = primcheck.run
+
+
+def merged(*runners):
+    def run(pid, tier):
+        parts = [r(pid, tier) for r in runners]
+        out = parts[0]
+        for b in parts[1:]:
+            out["violations"] += b["violations"]
+            c, d = out["coverage"], b["coverage"]
+            c["states"] += d["states"]
+            c["transitions"] += d["transitions"]
+            c["traces_validated_against_impl"] += d["traces_validated_against_impl"]
+            c["samples"] = c["samples"][:4] + d["samples"][:2]
+            c["explanation"] += " || " + d["explanation"]
+            for k, v in d.items():
+                c.setdefault(k, v)
+            out["assumptions"] = sorted(set(out.get("assumptions", []) + b.get("assumptions", [])))
+            out["headline"] += " || " + b["headline"]
+            out["drift"] = out.get("drift", []) + b.get("drift", [])
+        return out
+    return run
+
+
+CHECKS["C17"] = merged(dyncheck.run, primcheck.run)
